@@ -5,6 +5,13 @@ import statuscheck
 LEVEL = "proof"
 
 
+def tablefull(rng):
+    """one or two histories around the application limit (250 applications, long silence, verdicts asked again)"""
+    import procgen
+    return [procgen.HistGen(rng, "tablefull").build() for _ in range(2)]
+
+
 def run(chk, replay=None):
-    proccheck.run(chk, "PropC03", {'lifecycle': 5, 'overlap': 4, 'inactivity': 2, 'silence': 3, 'staletick': 1, 'mixed': 2, 'multi': 1}, 260, 4000, [301, 302, 303, 304, 305, 306], replay=replay)
+    proccheck.run(chk, "PropC03", {'lifecycle': 5, 'overlap': 4, 'inactivity': 2, 'silence': 3, 'staletick': 1, 'mixed': 2, 'multi': 1}, 260, 4000, [301, 302, 303, 304, 305, 306], replay=replay,
+                  extra_histories=tablefull)
     statuscheck.run_stage(chk)
